@@ -1,4 +1,139 @@
 //! Kani proof harnesses compiled as a child module of rosomaxa/src/algorithms/rl/slot_machine.rs (cfg(kani) only).
+//!
+//! C18: the conjugate update of the bandit arm keeps its learning state finite and valid, and `sample` hands
+//! the distribution samplers arguments that satisfy their constructors' preconditions.
+use super::*;
+use std::cell::Cell;
+
+/// Exact model of `f64::powi(x, 2)` (the only exponent used by the update); Kani's own `powi` is a
+/// nondeterministic over-approximation.
+fn powi_model(x: Float, n: i32) -> Float {
+    assert!(n == 2, "only powi(_, 2) is modelled");
+    x * x
+}
+
+#[derive(Clone)]
+struct Act;
+
+struct Fb(Float);
+
+impl SlotFeedback for Fb {
+    fn reward(&self) -> Float {
+        self.0
+    }
+}
+
+impl SlotAction for Act {
+    type Context = ();
+    type Feedback = Fb;
+
+    fn take(&self, _: ()) -> Fb {
+        Fb(0.)
+    }
+}
+
+/// Records the arguments the slot machine passes to the samplers and answers with arbitrary values.
+#[derive(Clone, Default)]
+struct Probe {
+    gamma_args: Cell<(Float, Float)>,
+    normal_args: Cell<(Float, Float)>,
+}
+
+impl DistributionSampler for Probe {
+    fn gamma(&self, shape: Float, scale: Float) -> Float {
+        self.gamma_args.set((shape, scale));
+        // a gamma sample is a non-negative finite number; exact zero is possible by underflow and is guarded by the code.
+        // Subnormal samples (0 < v < 2.2e-308, probability < 1e-400 for shape >= 1.5) are excluded: 1/v overflows to
+        // infinity and rand_distr's Normal::new rejects an infinite std_dev - recorded as an observation in DESIGN.md.
+        let v: Float = kani::any();
+        kani::assume((v == 0. || v >= Float::MIN_POSITIVE) && v.is_finite());
+        v
+    }
+
+    fn normal(&self, mean: Float, std_dev: Float) -> Float {
+        self.normal_args.set((mean, std_dev));
+        mean
+    }
+}
+
+const R_MAX: Float = 1048576.; // 2^20: several orders of magnitude above the documented reward range
+
+fn any_reward() -> Float {
+    let r: Float = kani::any();
+    // zero and denormals included
+    kani::assume(r >= 0. && r <= R_MAX);
+    r
+}
+
+fn check_state(machine: &SlotMachine<Act, Probe>, n: usize, lo: Float, hi: Float) {
+    let (alpha, beta, mu, v, count) = machine.get_params();
+    assert!(count == n);
+    assert!(alpha.is_finite() && beta.is_finite() && mu.is_finite() && v.is_finite());
+    assert!(alpha > 0.);
+    assert!(beta >= 10.);
+    assert!(v >= 0.);
+    assert!(alpha == 1. + n as Float / 2.);
+    // mean within the hull of everything seen, widened by a rounding allowance (mu + (r - mu)/n is not exact)
+    let slack = 9.5e-7; // 2^-20; hull values are <= 2^20, so this is ~2^-40 relative
+    assert!(mu >= lo - slack && mu <= hi + slack);
+}
+
+// @verif props=C18 tier=quick ob=slot_update fn=SlotMachine::new,SlotMachine::update,SlotMachine::get_params bounds="history of length 1 from new(prior); prior, reward any f64 in [0, 2^20] (0 and denormals included)" stubs="f64::powi(x,2) := x*x (exact)"
+#[kani::proof]
+#[kani::unwind(3)]
+#[kani::stub(f64::powi, powi_model)]
+fn c18_slot_update_one_step() {
+    let prior = any_reward();
+    let mut machine = SlotMachine::new(prior, Act, Probe::default());
+    check_state(&machine, 0, prior, prior);
+
+    let r1 = any_reward();
+    machine.update(&Fb(r1));
+    check_state(&machine, 1, prior.min(r1), prior.max(r1));
+    // after the first observation the mean IS the observation (n = 1): mu + (r - mu)/1
+    kani::cover!(r1 == 0. && prior > 0., "zero-reward");
+    kani::cover!(r1 > prior, "above-prior");
+}
+
+// @verif props=C18 tier=thorough ob=slot_update fn=SlotMachine::new,SlotMachine::update mem=heavy bounds="history of length 2 from new(prior); prior, rewards any f64 in [0, 2^20]" stubs="f64::powi(x,2) := x*x (exact)"
+#[kani::proof]
+#[kani::unwind(3)]
+#[kani::stub(f64::powi, powi_model)]
+fn c18_slot_update_two_steps() {
+    let prior = any_reward();
+    let mut machine = SlotMachine::new(prior, Act, Probe::default());
+    let (r1, r2) = (any_reward(), any_reward());
+    machine.update(&Fb(r1));
+    machine.update(&Fb(r2));
+    check_state(&machine, 2, prior.min(r1).min(r2), prior.max(r1).max(r2));
+    kani::cover!(r2 > r1, "increasing");
+}
+
+// @verif props=C18 tier=quick ob=slot_sample fn=SlotMachine::sample bounds="state = new(prior) or one update; prior, reward any f64 in [0, 2^20]; gamma sample 0 or any normal finite f64 >= 2.2e-308" stubs="f64::powi(x,2) := x*x (exact); f64::sqrt is CBMC's over-approximation (result >= 0 for finite positive input, NaN-free)"
+#[kani::proof]
+#[kani::unwind(3)]
+#[kani::stub(f64::powi, powi_model)]
+fn c18_slot_sample_preconditions() {
+    let prior = any_reward();
+    let mut machine = SlotMachine::new(prior, Act, Probe::default());
+    let updated: bool = kani::any();
+    if updated {
+        machine.update(&Fb(any_reward()));
+    }
+
+    let sample = machine.sample();
+
+    let (shape, scale) = machine.sampler.gamma_args.get();
+    let (mean, std_dev) = machine.sampler.normal_args.get();
+    // rand_distr::Gamma::new requires shape > 0 and scale > 0, both finite; Normal::new requires finite mean and std_dev >= 0 finite
+    assert!(shape > 0. && shape.is_finite());
+    assert!(scale > 0. && scale.is_finite());
+    assert!(mean.is_finite());
+    assert!(std_dev.is_finite() && std_dev >= 0.);
+    assert!(sample == mean);
+    kani::cover!(updated, "after-update");
+    kani::cover!(!updated, "fresh");
+}
 
 // Concrete-playback replays (`cargo kani playback`) are compiled from here; the file is written by /verif/check.
 #[cfg(all(kani, test))]
